@@ -103,8 +103,17 @@ def run(tier):
             cap = 1500 if heavy else 100000
         if len(singles) > cap:
             # seeded spread over the fields, but every cycle-making fault (self / ancestor) of the first fields is kept
-            idx = sorted(rng.sample(range(len(singles)), cap))
-            chosen = [singles[i] for i in idx]
+            # seeded sample, stratified by corruption kind so that the rare kinds (self, ancestor, far) are always in it
+            by_kind = {}
+            for i, d in enumerate(singles):
+                by_kind.setdefault(d["kind"], []).append(i)
+            idx = set()
+            share = max(3, cap // (2 * max(1, len(by_kind))))
+            for kind, lst in sorted(by_kind.items()):
+                idx.update(rng.sample(lst, min(share, len(lst))))
+            rest = [i for i in range(len(singles)) if i not in idx]
+            idx.update(rng.sample(rest, max(0, min(len(rest), cap - len(idx)))))
+            chosen = [singles[i] for i in sorted(idx)]
         else:
             chosen = list(singles)
         combos = []
